@@ -12,6 +12,12 @@ package main
 //	                                         and with CONCURRENT history elements: k = 2..8 steps at the same time,
 //	                                         one history under the race detector (pconc.go)
 //	c08 pchild <spec.json> <out.json> <dir>  (one history in its own process, re-exec'd by pstate)
+//	c08 sweep  -seed S -n <parallel> -tier T -ops F -out F -meta F [-extra "facts=file;focus=mul,div,..|all;procs=P;replay=file"]
+//	                                         WIDTH SWEEP (sweep.go): one operator per program at every operand width
+//	                                         of the tier's set (a third of 1..130 per seed / all, powers of two,
+//	                                         boundary widths of the integer-keyed tables of the compile path), each
+//	                                         compiled repeatedly in 8 child processes; model ops `mthr`
+//	c08 swchild <spec.json> <out.json>       (re-exec'd by sweep)
 
 import (
 	"fmt"
@@ -22,7 +28,7 @@ import (
 
 func main() {
 	if len(os.Args) < 2 {
-		fmt.Fprintln(os.Stderr, "usage: c08 <facts|oracle|child|pstate|pchild> ...")
+		fmt.Fprintln(os.Stderr, "usage: c08 <facts|oracle|child|pstate|pchild|sweep|swchild> ...")
 		os.Exit(2)
 	}
 	mode := os.Args[1]
@@ -52,6 +58,12 @@ func main() {
 		o.Close()
 	case "pchild":
 		runPChild(os.Args[2:])
+	case "sweep":
+		cf, o := hxlib.ParseCommon("c08", os.Args[2:], nil)
+		runSweep(cf, o)
+		o.Close()
+	case "swchild":
+		runSwChild(os.Args[2:])
 	default:
 		fmt.Fprintln(os.Stderr, "unknown mode", mode)
 		os.Exit(2)
